@@ -26,3 +26,34 @@ TEXT["C01"] = dict(
          "Termination/acyclicity-preservation theorems (C01_total, C01_wf) are in UnifyWf.v when present",
     technique="Coq proof (induction on fuel, solution-set semantics of triangular substitutions) + differential correspondence",
 )
+
+_PROG_NOTE = ("trusted: Coq kernel + vm_compute; the harness's goal-AST interpreter (real combinators), its reference search and the Coq-side "
+              "trace evaluation with constant unify fuel 400 (EvErr is reported, never accepted); mature cells' lazy tails modelled as computed tails; "
+              "the hand model of Mplus/Bind/eval is tied by sampling (cell traces of generated programs), not by proof")
+TEXT["C02"] = dict(
+    text="Theorem C02_sound (Coq kernel, no axioms), for every goal program over the full combinator set (recursive relations, conj+/disj+/conde, "
+         "ifte, once), every relation table, every consistent start state: every state at a finite position of the answer stream extends the "
+         "start state, is consistent, and every valuation solving it makes the goal's formula (inductive logical reading Den) true; corollaries for "
+         "take(n) and for unsatisfiable formulas. The stream/thunk search model is tied to micro/mini on every run by comparing exact cell traces "
+         "(suspension / answer / end) of generated goal programs run with the real combinators, plus an independent reference-search oracle.",
+    note=_PROG_NOTE,
+    technique="Coq proof (strong induction on the number of forces, structural induction on the goal) + differential cell-trace correspondence",
+)
+TEXT["C03"] = dict(
+    text="Theorems (Coq kernel, no axioms) for relational goals over guard-shaped relation tables: C03_complete - every solution of the formula is an "
+         "instance of an answer at a finite position whatever sibling branches do (fair mplus/bind lemmas in both argument positions); "
+         "C03_total_force - no force of a guarded program gets stuck; take(n) laws: at most n, fewer only if exhausted, exactly n when available, "
+         "all for negative n iff finite, prefix of n+1, deterministic. Tie: exact cell traces + take(n) prefix/exact-n/determinism oracles on the "
+         "real code, with process isolation so that a diverging implementation is an observation.",
+    note=_PROG_NOTE + "; multiplicities in infinite streams are stated at set level (InStream), multisets for finite streams",
+    technique="Coq proof (induction on the Den derivation with fairness lemmas; induction on take fuel) + differential cell-trace correspondence",
+)
+TEXT["C09"] = dict(
+    text="Theorems (Coq kernel, no axioms): DisjPlusNoZzz is the nested binary disjunction (stream equality); ConjPlusNoZzz has the identical cell trace as "
+         "nested Conj (bisimulation up to thunk labels); the Zzz variants and Conde have the same answers (and for finite streams permutation-equal answer "
+         "lists); empty conj succeeds once, empty disj fails; ifte = c-and-then-t with all answers of c when c has an answer, = e when c fails finitely, "
+         "silent when c is silent; once = the first answer, at most one. Tie: cell traces of n-ary programs with failing/diverging/infinite arguments in "
+         "every position, and the implementation against its own macro expansion.",
+    note=_PROG_NOTE,
+    technique="Coq proof (stream bisimulation, membership lemmas for mplus/bind, induction on loop derivations) + differential correspondence",
+)
